@@ -35,6 +35,7 @@ type liveSub struct {
 	tag   string
 	cells []string
 	cost  bool
+	boom  bool
 }
 
 type history struct {
@@ -117,16 +118,16 @@ func genHistory(r *rand.Rand, g *wsclient.Gen, seed int64) *history {
 		sort.Strings(ks)
 		return ks
 	}
-	forceCost := false
+	forceCost, forceBoom := false, false
 	sub := func(wait bool) wsclient.Step {
 		seq++
 		tag := fmt.Sprintf("t%d", seq)
 		cost := forceCost || r.Intn(4) == 0
-		opts := wsclient.QueryOpts{Slow: !forceCost, Boom: !forceCost && r.Intn(4) == 0, Cost: cost}
+		opts := wsclient.QueryOpts{Slow: !forceCost, Boom: forceBoom || (!forceCost && r.Intn(4) == 0), Cost: cost}
 		var q string
 		var cells []string
 		var vars map[string]interface{}
-		if !forceCost && r.Intn(3) == 0 {
+		if !forceCost && !forceBoom && r.Intn(3) == 0 {
 			opts.Boom = false // a re-used document must not bring a failing field into a later subscription
 			q, vars, cells = g.GenVarQuery(tag, opts)
 		} else {
@@ -139,7 +140,7 @@ func genHistory(r *rand.Rand, g *wsclient.Gen, seed int64) *history {
 			}
 		}
 		id := free[r.Intn(len(free))]
-		live[id] = &liveSub{tag: tag, cells: cells, cost: cost}
+		live[id] = &liveSub{tag: tag, cells: cells, cost: cost, boom: opts.Boom}
 		return wsclient.Step{Kind: "sub", ID: id, Tag: tag, Query: q, Vars: vars, Wait: wait, PauseUS: pause(r)}
 	}
 	n := 14 + r.Intn(26)
@@ -208,13 +209,13 @@ func genHistory(r *rand.Rand, g *wsclient.Gen, seed int64) *history {
 		case x < 42:
 			seq++
 			h.Steps = append(h.Steps, wsclient.Step{Kind: "echo", ID: fmt.Sprintf("e%d", seq), Wait: r.Intn(2) == 0, PauseUS: pause(r)})
-		case x < 64:
+		case x < 62:
 			h.Steps = append(h.Steps, wsclient.Step{Kind: "write", Op: g.NextOp(prefer()), PauseUS: pause(r)})
-		case x < 72: // burst of writes without pacing
+		case x < 70: // burst of writes without pacing
 			for k := 2 + r.Intn(4); k > 0; k-- {
 				h.Steps = append(h.Steps, wsclient.Step{Kind: "write", Op: g.NextOp(prefer())})
 			}
-		case x < 94: // changes landing during a recomputation
+		case x < 92: // changes landing during a recomputation
 			pf := prefer()
 			if len(pf) == 0 {
 				continue
@@ -236,14 +237,39 @@ func genHistory(r *rand.Rand, g *wsclient.Gen, seed int64) *history {
 				st.Then = []wsclient.Step{{Kind: "mutate", ID: fmt.Sprintf("m%d", seq), Op: g.NextOp(pf)}}
 			}
 			h.Steps = append(h.Steps, st)
-		default: // transient resolver failure on re-runs
-			on := g.AddOp(wsclient.Op{Cell: "boom", Val: int64(1 + r.Intn(2))})
+		default: // transient resolver failure on re-runs, then recovery
+			// a subscription that selects the failing field must be live
+			var bcells []string
+			for _, id := range liveIDs() {
+				if live[id].boom {
+					bcells = live[id].cells
+				}
+			}
+			if bcells == nil {
+				if len(live) >= 4 {
+					continue
+				}
+				forceBoom = true
+				st := sub(true)
+				forceBoom = false
+				h.Steps = append(h.Steps, st)
+				bcells = live[st.ID].cells
+			}
+			var bc []string
+			for _, c := range bcells {
+				if c != "boom" {
+					bc = append(bc, c)
+				}
+			}
+			on := g.AddOp(wsclient.Op{Cell: "boom", Val: int64(1 + r.Intn(wsclient.BoomShapes))})
 			st := wsclient.Step{Kind: "boomcycle", Op: on, PauseUS: 200 + r.Intn(3000)}
 			for k := r.Intn(3); k > 0; k-- {
-				st.Landing = append(st.Landing, g.NextOp(prefer()))
+				st.Landing = append(st.Landing, g.NextOp(bc))
 			}
 			st.N = g.AddOp(wsclient.Op{Cell: "boom", Val: int64(0)})
 			h.Steps = append(h.Steps, st)
+			// data keeps changing after the recovery
+			h.Steps = append(h.Steps, wsclient.Step{Kind: "write", Op: g.NextOp(bc), PauseUS: 500 + r.Intn(2000)})
 		}
 	}
 	// injections: writes landing at named points inside Rerunner.run / the
@@ -348,7 +374,7 @@ func TestCheck(t *testing.T) {
 	run := vlib.Start(t, "C02", "exploration")
 	defer run.Finish()
 	run.Rule("histories over one websocket connection (scripted JSONSocket) against a schemabuilder schema over a mutable store: 14-40 steps of subscribe (ids from a pool of 5, reused after unsubscribe; 1-6 fields over scalars, nullable object, keyed lists (nested), unkeyed object/scalar/nested lists, unions with and without key, union lists, a nullable keyed object, a keyed list of BY-VALUE structs holding a slice (non-comparable sources) with an Expensive field, slow and Expensive fields - also on list elements and on the nullable object, with interned source objects so that the reactive cache can hit), " +
-		"one third of the subscriptions use a document with variables ($tag, and $k selecting which cell a field reads), whose text is re-used verbatim by later subscriptions with different variable values, subscribe with a live id, unsubscribe (live / unknown id), mutate (own id namespace), echo, direct writes, write bursts, gate steps (a resolver of an in-flight run is held after AddDependency or after reading while 1-3 further writes, optionally an unsubscribe or a mutation, land), leave/change/return/change sequences for one item (out of the keyed list or the nullable object and back), 0/1/3/5/6/7/9 pass-through middlewares registered with conn.Use (some pausing before/after next), transient resolver failures on re-runs, unsubscribe-all sent a fraction of the write-then-read delay after a write that invalidates an idle subscription (reactive.WriteThenReadDelay is 0 in half of the histories, 0.5-3 ms in the rest), plus 0-2 writes injected at named hook points; case 0 is a pinned history (unsubscribe during an in-flight run, id re-subscribed while the run's own asynchronous close is pending); " +
+		"one third of the subscriptions use a document with variables ($tag, and $k selecting which cell a field reads), whose text is re-used verbatim by later subscriptions with different variable values, subscribe with a live id, unsubscribe (live / unknown id), mutate (own id namespace), echo, direct writes, write bursts, gate steps (a resolver of an in-flight run is held after AddDependency or after reading while 1-3 further writes, optionally an unsubscribe or a mutation, land), leave/change/return/change sequences for one item (out of the keyed list or the nullable object and back), 0/1/3/5/6/7/9 pass-through middlewares registered with conn.Use (some pausing before/after next), transient resolver failures on re-runs (plain error, safe error, errors wrapping context.Canceled / DeadlineExceeded of a resolver-owned context, safe error around one) followed by recovery, unsubscribe-all sent a fraction of the write-then-read delay after a write that invalidates an idle subscription (reactive.WriteThenReadDelay is 0 in half of the histories, 0.5-3 ms in the rest), plus 0-2 writes injected at named hook points; case 0 is a pinned history (unsubscribe during an in-flight run, id re-subscribed while the run's own asynchronous close is pending); " +
 		"cells notify by Invalidate-and-replace, Strobe, or per-read resources (seeded per cell); seeded pacing and yield-hook perturbation. " +
 		"Non-trivial = >= 2 writes logged while a subscription execution was in flight AND >= 1 non-initial update with a structural delta (reorder / removal / object, list or null replacement). Distinct = step-kind sequence + set of non-initial delta shapes.")
 	run.Assume("store cells follow the discipline AddDependency(resource) then read; writers change the value then Invalidate/Strobe; a resource released by its last dependant is replaced (thunder releases = permanently invalidates it)")
